@@ -25,6 +25,10 @@ func (c08) Gen(seed uint64, run int, tier string) *Plan {
 	cfg := world.DefaultConfig()
 	p := &Plan{Engine: EngineVersion, Property: "C08", Seed: seed, Run: run, Tier: tier, Cfg: cfg, Knobs: map[string]int{}}
 	p.Policy = simrt.Policy{Name: "atomic"}
+	if r.Intn(3) == 0 {
+		// the first hop's check-in overlaps with operators tasking agents behind it
+		p.Policy = simrt.Policy{Name: "random", P: []float64{0.01, 0.05}[r.Intn(2)], RMWP: 0.3}
+	}
 	p.Knobs["ops"] = 1
 	p.Knobs["demons"] = 1
 	// the tree: node i >= 1 hangs below node parent(i) < i; depth bounded by 5
@@ -63,7 +67,7 @@ func (c08) Gen(seed uint64, run int, tier string) *Plan {
 		node := r.Intn(n)
 		switch x := r.Intn(100); {
 		case x < 40:
-			p.Actions = append(p.Actions, Action{Kind: "task", B: node, C: r.Intn(2), D: r.Intn(1 << 20)})
+			p.Actions = append(p.Actions, Action{Kind: "task", B: node, C: r.Intn(2), D: r.Intn(1 << 20), A: r.Intn(3)})
 		case x < 60:
 			p.Actions = append(p.Actions, Action{Kind: "fetch"})
 		case x < 85:
@@ -222,8 +226,19 @@ func (c08) Exec(p *Plan, dir string) *Result {
 				t.args = []any{uint32(4), append(world.UTF16LE(path), 0, 0)}
 				wit.Task(n.d.NameID(), fmt.Sprintf("%08x", rid), world.CmdFS, "cd", map[string]any{"SubCommand": "cd", "Arguments": path})
 			}
-			w.Sim.Settle()
 			n.pending = append(n.pending, t)
+			if p.Policy.Name != "atomic" && a.A == 0 {
+				// the root's check-in arrives while the task is being queued
+				w.Sim.RunSteps(uint64(w.Sim.SchedRand().Intn(120)))
+				root := nodes[0].d
+				call := w.Send(world.AgentReq{Port: root.Port, URI: root.URI, Headers: root.Hdrs, Body: root.Frame(nil), Peer: root.Peer})
+				w.Sim.Settle()
+				w.Route(root, w.Absorb(root, call))
+				res.Probe("task-overlapping-checkin")
+				fetchAll()
+			} else {
+				w.Sim.Settle()
+			}
 			res.FP("task", n.d.Depth(), a.C%2)
 			res.Probe("tasks-issued")
 		case "fetch":
